@@ -2342,7 +2342,8 @@ impl Reference
 				}
 				let declared_type = dt;
 				assert!(assigned_type.is_wellformed(), "{assigned_type:?}");
-				assert!(assignee_type.is_wellformed(), "{assignee_type:?}");
+				// The assignee type only illustrates the mismatch and need
+				// not be a type that can exist (a pointer to an array view).
 				assert!(declared_type.is_wellformed(), "{declared_type:?}");
 				Some(Error::MismatchedAddressInAssignment {
 					name: base.name.clone(),
